@@ -337,7 +337,9 @@ def fg_index_contract():
 # fg_id_numpy, stage 2 (the assignment loop with its nested loop over the children lists), under the proved
 # postcondition of stage 1: SAFETY, RANGE and NESTING -- no KeyError / IndexError on any path for any number of rows,
 # every person receives an id, ids lie in [0, number of opened units), and two persons with the same id live in
-# the same household (the "family unit within household" clause of C12; needs VALID: partners share hh_id).
+# the same household (the "family unit within household" clause of C12; needs VALID: partners share hh_id), and
+# EXCLUSION R3: two different persons with the same id who are both 25 or older or have a child in the data are
+# Einstandspartner (pins "childless children under 25"; needs VALID: symmetric partner pointers).
 # The rest of the partition (who shares an id) is NOT part of this contract; it stays with the bounded-exhaustive run.
 # ------------------------------------------------------------------------------------------
 def fg_assign_contract():
@@ -349,7 +351,17 @@ def fg_assign_contract():
         return base["pre"](inp, gh) + [
             ("VALID: a partner pointer is -1 or an existing person of the same household",
              z3.ForAll([i], z3.Implies(z3.And(0 <= i, i < N, ptr[i] >= 0), z3.And(0 <= rowof(ptr[i]), rowof(ptr[i]) < N, p[rowof(ptr[i])] == ptr[i], hh[rowof(ptr[i])] == hh[i])))),
+            ("VALID: partner pointers are symmetric and never point to oneself",
+             z3.ForAll([i], z3.Implies(z3.And(0 <= i, i < N, ptr[i] >= 0), z3.And(ptr[rowof(ptr[i])] == p[i], ptr[i] != p[i])))),
         ]
+
+    def adult(inp, gh, st, x_):
+        """not eligible as a child: 25 or older, or has a child in the data (the statement's "childless children under 25")"""
+        return z3.Or(inp["alter"].arr[gh["rowof"](x_)] >= 25, st["p_id_to_p_ids_children"].dom[x_])
+
+    def pairs(inp, gh, st):
+        fg, ptr, rowof = st["p_id_to_fg_id"], inp["p_id_einstandspartner"].arr, gh["rowof"]
+        return z3.ForAll([x, y], z3.Implies(z3.And(fg.dom[x], fg.dom[y], x != y, fg.val[x] == fg.val[y], adult(inp, gh, st, x), adult(inp, gh, st, y)), ptr[rowof(x)] == y))
 
     def carry(inp, gh):
         ix = SDict(A("p_id_to_index!c", Bool), A("p_id_to_index!cv"))
@@ -374,6 +386,7 @@ def fg_assign_contract():
             ("B2 assigned ids lie below the counter", z3.ForAll([x], z3.Implies(fg.dom[x], z3.And(0 <= fg.val[x], fg.val[x] < nxt)))),
             ("B3 keys are existing persons", exist(inp, gh, fg)),
             ("B4 persons with the same id live in the same household", nest(inp, gh, fg)),
+            ("B5 two different persons with the same id who are 25 or older or have a child in the data are partners", pairs(inp, gh, st)),
         ]
 
     def inner_inv(inp, gh, st_entry, st, t, lst):
@@ -387,6 +400,10 @@ def fg_assign_contract():
             ("C3 keys are existing persons", exist(inp, gh, fg)),
             ("C4 persons with the same id live in the same household", nest(inp, gh, fg)),
             ("C5 members of the unit being opened live in the opener's household", z3.ForAll([x], z3.Implies(z3.And(fg.dom[x], fg.val[x] == nxt), hh[rowof(x)] == cur))),
+            ("C6 two different persons with the same id who are 25 or older or have a child in the data are partners", pairs(inp, gh, st)),
+            ("C7 the unit being opened holds the opener, the opener's partner and persons under 25 without a child in the data",
+             z3.ForAll([x], z3.Implies(z3.And(fg.dom[x], fg.val[x] == nxt),
+                                       z3.Or(x == st_entry["current_p_id"], z3.And(st_entry["current_p_id_einstandspartner"] >= 0, x == st_entry["current_p_id_einstandspartner"]), z3.Not(adult(inp, gh, st, x)))))),
         ]
 
     def post(inp, gh, st):
@@ -397,6 +414,11 @@ def fg_assign_contract():
             ("R1 ids lie in [0, number of opened units)", z3.ForAll([i], z3.Implies(z3.And(0 <= i, i < N), z3.And(0 <= Rr.arr[i], Rr.arr[i] < nxt)))),
             ("R2 nesting: two rows with the same Familiengemeinschaft id have the same hh_id (family unit within household)",
              z3.ForAll([i, j], z3.Implies(z3.And(0 <= i, i < N, 0 <= j, j < N, Rr.arr[i] == Rr.arr[j]), hh[i] == hh[j]))),
+            ("R3 nothing else shares: two different rows with the same id that are both 25 or older or have a child in the data are Einstandspartner",
+             z3.ForAll([i, j], z3.Implies(z3.And(0 <= i, i < N, 0 <= j, j < N, i != j, Rr.arr[i] == Rr.arr[j],
+                                                 z3.Or(inp["alter"].arr[i] >= 25, st["p_id_to_p_ids_children"].dom[inp["p_id"].arr[i]]),
+                                                 z3.Or(inp["alter"].arr[j] >= 25, st["p_id_to_p_ids_children"].dom[inp["p_id"].arr[j]])),
+                                          inp["p_id_einstandspartner"].arr[i] == inp["p_id"].arr[j]))),
         ]
 
     return {"function": "fg_id_numpy", "n_loops": 2, "loop_no": 1, "inputs": base["inputs"], "pre": pre, "carry": carry, "inv": inv, "inner_inv": inner_inv, "post": post}
